@@ -13,6 +13,7 @@ func init() {
 			"(C14-c) the policy store is read only by the selection function (candidates from the pod's namespace, appended only under Selects(pod, direction)) and by the IP partition; " +
 			"(C14-d) policyTypes defaulting is one decision table with a single reader (explicit vs defaulted spellings), port sets are the library's canonical interval sets; " +
 			"(C14-pure) no unreviewed write of long-lived state on query paths (a memo with a coarse key breaks locality). " +
+			"(C14-e) a loop that skips elements whose key was seen before reads, after the guard, only element fields that are part of the key (a rule or ipBlock that differs elsewhere must not be dropped as a duplicate). " +
 			"NOT decided: matchLabels vs single-value In (apimachinery), split CIDRs vs whole (library), the relations on actual outputs."
 		rules.MonotoneAccumulators(p, r, "C14-a")
 		rules.DefaultIsTop(p, r, "C14-b")
@@ -20,5 +21,6 @@ func init() {
 		rules.PolicyTypesTable(p, r, "C14-d")
 		rules.IntervalCanonicity(p, r, "C14-d-ports")
 		rules.QueryPathWrites(p, r, "C14-pure")
+		rules.SeenSetKeyCompleteness(p, r, "C14-e")
 	})
 }
